@@ -221,7 +221,7 @@ class Spectrum(numpy.ma.masked_array):
             See [to_file][dadi.Spectrum_mod.Spectrum.to_file] method for details on the file format.
         """
         if fname.endswith('.gz'):
-            fid = gzip.open(fname, 'rb')
+            fid = gzip.open(fname, 'rt')
         else:
             fid = open(fname, 'r')
 
@@ -316,7 +316,7 @@ class Spectrum(numpy.ma.masked_array):
         """
         # Open the file object.
         if fname.endswith('.gz'):
-            fid = gzip.open(fname, 'wb')
+            fid = gzip.open(fname, 'wt')
         else:
             fid = open(fname, 'w')
 
